@@ -18,7 +18,7 @@ Open Scope string_scope.
    its @type values, the next path term and every term its contexts refer to without defining
    it have the same definition in the context the node's type-scoped ancestors are reverted to
    ("no type-scoped (re)definition visible in the nested node": boundary of D8, known finding).
-   Without it the statement is refuted below.  (Since fix 8c11b39 no condition on the members
+   Without it the statement is refuted below.  (Since fix 7a3eec3 no condition on the members
    of an indexed array is needed: the resolver continues in the selected member.) *)
 Theorem C11_doc_vs_store :
   forall ld m pi p p' dt v fs,
@@ -149,25 +149,35 @@ Theorem C11_doc_vs_store_refuted_type_scoped :
 Proof. exact doc_vs_store_refuted_type_scoped. Qed.
 Print Assumptions C11_doc_vs_store_refuted_type_scoped.
 
-(* D14, fixed by 8c11b39: a numeric segment selects a member of the array found at that
-   position of the document, and the walk continues in that member ... *)
+(* D14, array part fixed by 7a3eec3: a numeric segment on an array selects one of its members,
+   and the walk continues in that member ... *)
 Theorem C11_numeric_segment :
-  forall ld i rest G doc acc p,
+  forall ld i rest G l acc p,
   is_num i = true ->
-  pfd ld (i :: rest) G doc acc = Ok p ->
-  exists l x more, doc = JArr l /\ nth_error l (Z.to_nat (num_val i)) = Some x /\
-                   pfd ld rest G x false = Ok more /\ p = PInt (num_val i) :: more.
+  pfd ld (i :: rest) G (JArr l) acc = Ok p ->
+  exists x more, nth_error l (Z.to_nat (num_val i)) = Some x /\
+                 pfd ld rest G x false = Ok more /\ p = PInt (num_val i) :: more.
 Proof. exact numeric_segment_selects_member. Qed.
 Print Assumptions C11_numeric_segment.
 
-(* ... and anything else (not an array, out of range) is an error *)
+(* ... and an index that is out of range is an error *)
 Theorem C11_numeric_segment_errors :
-  forall ld i rest G doc acc,
+  forall ld i rest G l acc,
   is_num i = true ->
-  (forall l, doc <> JArr l) \/ (exists l, doc = JArr l /\ nth_error l (Z.to_nat (num_val i)) = None) ->
-  exists t, pfd ld (i :: rest) G doc acc = Err t.
+  nth_error l (Z.to_nat (num_val i)) = None ->
+  exists t, pfd ld (i :: rest) G (JArr l) acc = Err t.
 Proof. exact numeric_segment_errors. Qed.
 Print Assumptions C11_numeric_segment_errors.
+
+(* still refuted (D14 non-array part, known finding, pinned by the repository's
+   TestIPFSContext): a numeric segment on a value that is not an array is copied unchecked *)
+Theorem C11_numeric_segment_on_non_array_refuted :
+  exists ld doc pi p,
+    path_from_document ld doc pi = Ok p /\
+    (exists t, doc_field ld doc pi = Err t) /\
+    (exists fs, facts ld doc = Ok fs /\ forall f, In f fs -> f_path f <> p).
+Proof. exact numeric_segment_on_non_array_refuted. Qed.
+Print Assumptions C11_numeric_segment_on_non_array_refuted.
 
 (* still refuted (D31, known finding): a multi-member array addressed without its index *)
 Theorem C11_missing_index_refuted :
